@@ -3,7 +3,10 @@ never written by a check)."""
 import json
 HANG = lambda p: [f'{p}.hang']
 K = []
+import os
 def known(fid, prop, clauses, what, repro=None):
+    if repro == '' and os.path.exists(f'/verif/findings/{fid}_{prop}.json'):
+        repro = f'findings/{fid}_{prop}.json'  # produced by tools/pin_all.py
     K.append({'id': fid, 'property': prop, 'status': 'known', 'cause': fid, 'clauses': clauses,
               'reproducer': repro if repro is not None else f'findings/{fid}.json',
               'line': f'known: property={prop} {what} [{fid}]'})
